@@ -453,9 +453,18 @@ def memoize_when_activated(fun):
     def wrapper(self):
         try:
             # case 1: we previously entered oneshot() ctx
-            cache = self._cache
+            owner, cache = self._cache
         except AttributeError:
             # case 2: we never entered oneshot() ctx
+            try:
+                return fun(self)
+            except Exception as err:  # noqa: BLE001
+                raise err from None
+        if owner != threading.get_ident():
+            # case 2 bis: the oneshot() ctx was entered by another
+            # thread. Its cache is not ours: we would return data read
+            # before this call began, and our own (later) read would
+            # replace the entry the ctx owner relies on.
             try:
                 return fun(self)
             except Exception as err:  # noqa: BLE001
@@ -481,9 +490,10 @@ def memoize_when_activated(fun):
 
     def cache_activate(proc):
         """Activate cache. Expects a Process instance. Cache will be
-        stored as a "_cache" instance attribute.
+        stored as a "_cache" instance attribute, together with the
+        id of the thread which activated it (the only one using it).
         """
-        proc._cache = {}
+        proc._cache = (threading.get_ident(), {})
 
     def cache_deactivate(proc):
         """Deactivate and clear cache."""
